@@ -203,18 +203,28 @@ class C02(core.Check):
     rule = ("cases = random trees (depth <= 6) of canvas operations (CanvasCombine, CanvasJoin with padding, CanvasOverlay, "
             "CompositeCanvas wrap, pad_trim_left_right, pad_trim_top_bottom, trim, trim_end, fill_attr_apply, set cursor / pop-up, "
             "finalize) over text leaves (double-width and zero-width characters, run-length attribute and charset lists split in "
-            "three ways, short rows, cursors) and solid leaves, with shared operands; one case in five is written in a double-byte "
+            "three ways, short rows, cursors) and solid leaves, with shared operands; joins get a 0-row canvas beside the others in 12% of the "
+            "cases and at every position in a systematic family followed by every trim / window / overlay offset; one case in five is written in a double-byte "
             "encoding (big5, gbk, uhc, euc-kr, gb2312, euc-jp) instead of UTF-8; attribute maps range over ordinary attributes, None and "
             "the falsy attributes 0 and '' as keys and targets, with fills over already filled canvases; systematic families (all "
             "pad/trim amounts, all overlay offsets over rows with double-width characters, the same windows and offsets in every "
             "double-byte encoding over double-width characters of every trail-byte class, every pair of single-entry attribute maps "
             "applied one after the other); same-size pairs for content_delta; a malformed stream "
-            "(out-of-range amounts, unequal widths) judged by the correspondence only. non-trivial = at least one composite "
+            "(out-of-range amounts, unequal widths) judged by the correspondence only; probes = direct reads "
+            "leaf.content(trim_left, trim_top, cols, rows, attr) of text leaves (0-3 random windows per random case, every window of the "
+            "systematic leaves in UTF-8 and in every double-byte encoding, some windows sticking out), compared raw - segment for segment, "
+            "byte for byte - with the byte-level model and, decoded, with the window of the leaf's grid by the oracle. non-trivial = at least one composite "
             "operation evaluated; distinct by hash of (case, outcome)")
     trusted_base = [
         "Coq 8.16.1 kernel (coqc; vm_compute used only for closed examples)",
         "hand-written model coq/theories/Model/Canvas.v of urwid/canvas.py and its object-identity layer Model/CanvasHeap.v (validated by the correspondence incl. internal shards and aliasing pattern, not proved against Python)",
-        "cell abstraction of TextCanvas rows (harness builds the bytes/run lists from cells; runs aligned to cells; util.trim_text_attr_cs modelled at cell level)",
+        "cell abstraction of TextCanvas rows in Model/Canvas.v: PROVED against the byte-level TextCanvas (Model/CanvasBytes.v) for the double-byte "
+        "encodings (byte_text_canvas_is_cell_text_canvas); for UTF-8 it stays a modelling step validated by the correspondence (cells AND the raw "
+        "content() segments of the byte model on probe windows)",
+        "hand-written byte-level model coq/theories/Model/CanvasBytes.v of TextCanvas.__init__ / content() (tied by the probe correspondence: raw "
+        "(attr, cs, bytes) segments of leaf.content(trim_left, trim_top, cols, rows, attr)); it calls the C11 model Model/Width.v (calc_width, "
+        "trim_text_attr_cs, rle_product; integer code translated by py2v from str_util.py / util.py) which is imported read-only together with "
+        "C11's theorems within_double_byte_exact / calc_trim_text_double_byte",
         "extraction: ExtrOcamlBasic only; Z/positive stay Coq datatypes; OCaml 4.13.1",
         "tools/driver/driver.ml (int <-> Z conversion, line I/O)",
         "Python grid oracle and wire encode/decode in harness/props/c02.py",
@@ -225,7 +235,9 @@ class C02(core.Check):
         "one representative per boundary of the codec's trail-byte ranges; three-byte EUC-JP and half-width katakana not used)",
         "attribute / charset runs of leaf text canvases end on character-cell boundaries; a row does not start with a zero-width character",
         "operations are applied where they are defined (positive sizes, equal widths for stacking, overlay inside the bottom canvas, "
-        "join widths >= canvas widths); outside, only model-vs-implementation agreement is checked",
+        "join widths >= canvas widths); outside, only model-vs-implementation agreement is checked; one case beyond the theorems is judged by "
+        "the oracle as well: a canvas WITHOUT rows (SolidCanvas(.., cols, 0), what an empty Pile renders) as an operand of CanvasJoin is a blank "
+        "block of its width (pad_trim_top_bottom on a 0-row canvas, repo 69bd6e4, is in the model; the theorems still assume rows > 0)",
         "attribute keys are hashable constants (modelled as integers; None, the integer 0 and the empty string are among the "
         "attributes used, as cell attributes, map keys and map targets); attribute maps are compared as dicts",
         "object identity of leaf canvases (cv[5] is other_cv[5]) is an integer id; equal ids denote the same canvas (premise ids_ok of the delta theorem)",
@@ -652,10 +664,11 @@ class C02(core.Check):
     @staticmethod
     def g_leaf(spec):
         if spec["t"] == "solid":
-            if spec["cols"] <= 0 or spec["rows"] <= 0:
+            if spec["cols"] <= 0 or spec["rows"] < 0:
                 return None
+            # rows == 0: a canvas without rows (what an empty Pile renders); only its width is known ("w")
             return {"g": [[[0, 0, spec["cs"], spec["ch"]] for _ in range(spec["cols"])] for _ in range(spec["rows"])],
-                    "cur": [None], "pop": []}
+                    "cur": [None], "pop": [], "w": spec["cols"]}
         rows = []
         for cells in spec["rows"]:
             r = []
@@ -715,6 +728,8 @@ class C02(core.Check):
             if not (1 <= i <= len(leaves)) or leaves[i - 1] is None:
                 return None
             v = leaves[i - 1]
+            if not v["g"]:
+                return None        # a canvas without rows is only defined as an operand of a join (handled there)
             return {"g": [[list(c) for c in r] for r in v["g"]], "cur": list(v["cur"]), "pop": list(v["pop"]), "leaf": True}
         if k == "ref":
             if not (0 <= t[1] < len(env)) or env[t[1]] is None:
@@ -742,16 +757,24 @@ class C02(core.Check):
                 y += len(v["g"])
             return {"g": g, "cur": self.w_merge(cur), "pop": pop}
         if k == "join":
-            vs = [(self.g_eval(s, leaves, env), c) for s, c in t[1]]
+            def operand(s):
+                # a leaf without rows joined with canvases that have rows: a blank block of its width
+                if s[0] == "leaf" and 1 <= s[1] <= len(leaves) and leaves[s[1] - 1] is not None and not leaves[s[1] - 1]["g"]:
+                    return {"g": [], "cur": [None], "pop": [], "w": leaves[s[1] - 1]["w"]}
+                return self.g_eval(s, leaves, env)
+            vs = [(operand(s), c) for s, c in t[1]]
             if not vs or any(v is None for v, _ in vs):
                 return None
-            if any(c < len(v["g"][0]) for v, c in vs):
+            width = lambda v: len(v["g"][0]) if v["g"] else v["w"]
+            if any(c < width(v) for v, c in vs):
                 return None
             h = max(len(v["g"]) for v, _ in vs)
+            if h == 0:
+                return None
             g = [[] for _ in range(h)]
             cur, pop, x0 = [], [], 0
             for v, c in vs:
-                w = len(v["g"][0])
+                w = width(v)
                 for y in range(h):
                     g[y] += (v["g"][y] if y < len(v["g"]) else [list(BL) for _ in range(w)]) + [list(BL) for _ in range(c - w)]
                 cur.append(self.w_map(v["cur"], lambda ww_, x0=x0: (ww_[0] + x0, ww_[1], ww_[2])))
@@ -1126,8 +1149,8 @@ class C02(core.Check):
             if r < 0.15 and nenv_dims:
                 k = rng.randrange(len(nenv_dims))
                 t, w, h = ["ref", k], nenv_dims[k][0], nenv_dims[k][1]
-            elif r < 0.35 and leaves:
-                i = rng.randrange(len(leaves))
+            elif r < 0.35 and [sp for sp in leaves if not (sp["t"] == "solid" and sp["rows"] == 0)]:
+                i = rng.choice([j for j, sp in enumerate(leaves) if not (sp["t"] == "solid" and sp["rows"] == 0)])
                 sp = leaves[i]
                 if sp["t"] == "solid":
                     w, h = sp["cols"], sp["rows"]
@@ -1152,6 +1175,11 @@ class C02(core.Check):
             n = rng.choice([1, 2, 2, 3])
             parts = [self.gen_tree(rng, depth - 1, leaves, nenv_dims) for _ in range(n)]
             items = [[t, w + rng.choice([0, 0, 1, 2])] for t, w, h, lf in parts]
+            if rng.random() < 0.12:
+                # a canvas without rows (an empty Pile renders SolidCanvas(" ", cols, 0)) beside the others
+                zw = rng.choice([1, 2, 3])
+                leaves.append({"t": "solid", "cs": 0, "ch": " ", "cols": zw, "rows": 0})
+                items.insert(rng.randint(0, len(items)), [["leaf", len(leaves)], zw + rng.choice([0, 0, 1])])
             return ["join", items], sum(c for _, c in items), max(p[2] for p in parts), False
         if k == "overlay":
             bt, W, H, _ = self.gen_tree(rng, depth - 1, leaves, nenv_dims)
@@ -1463,8 +1491,37 @@ class C02(core.Check):
     def all_windows(leaf, W, H, m_):
         return [[leaf, a, b, c, d, m_] for a in range(W) for c in range(0, W - a + 1) for b in range(H) for d in range(0, H - b + 1)]
 
+    def zero_row_systematic(self):
+        """a canvas without rows at every position of a join, then every trim, window and overlay offset of the result"""
+        z = {"t": "solid", "cs": 0, "ch": " ", "cols": 2, "rows": 0}
+        L = [self.WLEAF, self.TLEAF, z]
+        for pos in range(3):
+            for zc in (2, 3):
+                items = [[["leaf", 1], 6], [["combine", [["leaf", 2], ["leaf", 2], ["leaf", 2]]], 3]]
+                items.insert(pos, [["leaf", 3], zc])
+                jn = ["join", items]
+                JW, JH = 9 + zc, 3
+                yield {"leaves": L, "defs": [jn], "deltas": []}
+                for top in range(JH):
+                    for cnt in [None] + list(range(1, JH - top + 1)):
+                        yield {"leaves": L, "defs": [["trim", jn, top, cnt]], "deltas": []}
+                for a in (-1, 1):
+                    for b in (-1, 0, 2):
+                        yield {"leaves": L, "defs": [["padtb", jn, a, b]], "deltas": []}
+                for l in range(0, JW, 2):
+                    for w in (1, 2, 5):
+                        if l + w <= JW:
+                            yield {"leaves": L, "defs": [["padlr", jn, -l, -(JW - l - w)]], "deltas": []}
+                for left in range(0, JW - 3 + 1):
+                    for top in range(JH):
+                        yield {"leaves": L, "defs": [["overlay", ["wrap", ["leaf", 2]], jn, left, top]], "deltas": []}
+                yield {"leaves": L, "defs": [jn, ["combine", [["ref", 0], jn]], ["join", [[["ref", 0], JW], [["leaf", 3], 2]]]],
+                       "deltas": [[0, 0]]}
+
     def cases(self, rng, tier):
         for c in self.systematic():
+            yield c
+        for c in self.zero_row_systematic():
             yield c
         for c in self.fill_systematic():
             yield c
@@ -1582,7 +1639,21 @@ C02.level_text = (
     "operations; heap_machine_refines_pure_machine: the machine over references (the one that is extracted) computes exactly "
     "what the pure machine computes, so the composition theorem holds for it (canvas_composition_is_grid_on_the_heap).  The "
     "oracle still re-reads every bound canvas and leaf at the end of each case.  "
-    "The model is hand-written (no translated code): its agreement with canvas.py is re-established on every run by the exact "
+    "Extension 2 - below the cells: Model/CanvasBytes.v models TextCanvas itself (byte strings, run-length attribute / charset lists, "
+    "the constructor's width check and padding, content() with util.trim_text_attr_cs and util.rle_product) on top of the C11 model of "
+    "str_util.py / util.py (translated integer code, imported read-only).  Proved for EVERY row of well-formed double-byte text (big5 / gbk / "
+    "uhc / euc-* : lead 0x81..0xFF, trail 0x40..0x7E or 0x80..0xFF) with any attribute / charset run-length split and every window: "
+    "trim_text_attr_cs returns the bytes and runs of a row whose cells are trim_cells of the cells - a double-width character cut by either "
+    "edge becomes one 0x20 with the character's attribute and charset None (double_byte_row_trim_is_cell_trim, using C11's "
+    "within_double_byte_exact and calc_trim_text_double_byte); rle_subseg is the slice and rle_product the CANONICAL zip of the per-byte "
+    "expansions, so no (attr, cs, bytes) segment ends inside a character; content() raises exactly when the cell-level text_content does and "
+    "otherwise decodes, segment by segment, to the cell rows (double_byte_text_content_is_cell_content); the constructor raises exactly when "
+    "make_text does and pads like it; together (byte_text_canvas_is_cell_text_canvas, hypotheses = the boolean check binit_okb of the "
+    "constructor's arguments, non-vacuity ex_bytes): every content() call a cview can make on a double-byte text leaf returns the cells the "
+    "cell-level model uses, so the composition theorem speaks about the bytes urwid emits in these encodings.  UTF-8 rows are not covered by "
+    "this proof (zero-width characters and the width table make the byte/column map non-trivial): there the byte model is only compared with "
+    "canvas.py and with the cell model on the probe windows.  "
+    "The models of canvas.py are hand-written (only the str_util / util functions under CanvasBytes.v are translated code): their agreement with canvas.py is re-established on every run by the exact "
     "correspondence on content, sizes, coords, raised error kinds, the internal shards tuples AND the aliasing pattern (which "
     "shards lists and which cviews lists of the bound canvases are the same object); WF is evaluated by the extracted model "
     "on every canvas of every defined case."
